@@ -421,3 +421,9 @@ Theorem C12_event_rate_causal_unrepaired_refuted : exists (bsz stp lo : Z) (cs1 
     concat (map r_counts o1) = [1; 0; 1; 1; 1] /\ concat (map r_counts o2) = [1; 1; 1; 1; 1].
 Proof. exact event_rate_causal_unrepaired_refuted. Qed.
 Print Assumptions C12_event_rate_causal_unrepaired_refuted.
+(* nothing changed for streams whose chunks hold only events inside their spans: there the code before the repair
+   ([er_step_unrepaired], with either value of the older first-chunk flag) and the repaired code run identically *)
+Theorem C12_event_rate_unrepaired_in_span : forall rep bsz stp lo (cs : list events), 0 <= stp -> ev_stream_any lo cs ->
+  run (er_step_unrepaired rep bsz stp) None cs = run (er_step rep bsz stp) None cs.
+Proof. exact event_rate_unrepaired_in_span_stream. Qed.
+Print Assumptions C12_event_rate_unrepaired_in_span.
